@@ -36,6 +36,9 @@ TASK_TIMEOUT_S = {"quick": 300, "thorough": 900}
 MIN_EVALUATIONS = {"quick": 20, "thorough": 200}
 N = {"quick": 128, "thorough": 1500}
 PATH_CAP = {"quick": 60_000, "thorough": 200_000}
+# deterministic work budget per scenario: decisions taken over all enumerated paths, weighted by the cost of
+# an integrator step (implicit / constrained steps run iterative solves); None = no budget beyond PATH_CAP
+WORK_CAP = {"quick": None, "thorough": 500_000}
 
 
 def pseudo_criterion(system, s1, s2, sum_mom):  # noqa: ARG001
@@ -115,7 +118,7 @@ def scenarios(tier, seed):
         out.append({
             "boundary": boundary,
             "system": spec, "integrator": ispec, "transition": ts, "window": rng.choice([2, 3, 4]),
-            "start_seed": rng.getrandbits(40), "path_cap": PATH_CAP[tier],
+            "start_seed": rng.getrandbits(40), "path_cap": PATH_CAP[tier], "work_cap": WORK_CAP[tier],
         })
     return out
 
@@ -213,6 +216,9 @@ def run_scenario(scn):
             for p, (out, st_stats, outs, n_calls, errors, margins), script in dt.enumerate_paths(run, scn["path_cap"] - n_paths):
                 n_paths += 1
                 stats["decisions"] += len(script.trace)
+                if scn.get("work_cap") and stats["decisions"] * (12 if implicit else 1) > scn["work_cap"]:
+                    stats["paths"] = n_paths
+                    return discard("work-budget")
                 for kd in script.kinds:
                     stats["decision_kinds"][kd] = stats["decision_kinds"].get(kd, 0) + 1
                 if margins and min(margins) < 1e-9:
@@ -271,6 +277,11 @@ def run_scenario(scn):
             # deterministic early exit: the decision tree of this scenario will not fit the budget
             stats["paths"] = n_paths
             return discard("path-cap-predicted")
+        if scn.get("work_cap"):
+            work = stats["decisions"] * (12 if implicit else 1)
+            if work > scn["work_cap"] or (n_done in (1, 2, 4, 8, 16, 32) and work / n_done * len(starts) > 1.5 * scn["work_cap"]):
+                stats["paths"] = n_paths
+                return discard("work-budget")
     stats["paths"] = n_paths
     if had_error:
         return discard("integrator-error-in-trajectory")
